@@ -41,7 +41,7 @@ Lemma client13_recorded O r s c :
   exists cm sch0 sg ctx,
     r_cert r = Some cm /\ c = cm_chain cm /\ c <> [] /\ r_cv r = Some (Some sch0, sg) /\
     vb13 O sch0 (r_prf r) tag_server (r_tr_cv r) = Ok ctx /\
-    ((cm_dc cm = [] /\ s_dc s = false /\ sch_in sch0 (r_offered r) = true /\ sig_ok O (cm_key cm) (Some sch0) ctx sg = true) \/
+    ((cm_dc cm = [] /\ s_dc s = false /\ sch_in sch0 (r_offered r) = true /\ sch_in sch0 (r_valid r) = true /\ sig_ok O (cm_key cm) (Some sch0) ctx sg = true) \/
      (exists d, cm_dc cm = [d] /\ s_dc s = true /\ dc_cv_alg d = sch0 /\ dc_proved O r cm d ctx sg)).
 Proof.
   unfold client13, records, finished, key_from_chain, dc_verify. intros H Hc.
@@ -50,7 +50,9 @@ Proof.
     split; [reflexivity|]. split; [reflexivity|]. split; [reflexivity|].
     eexists _, _, _, _. split; [reflexivity|]. split; [reflexivity|].
     split; [apply is_nil_false; first [assumption|reflexivity]|]. split; [reflexivity|]. split; [eassumption|].
-    left. split; [first [assumption|reflexivity]|]. split; [reflexivity|]. split; first [assumption|reflexivity].
+    left. split; [first [assumption|reflexivity]|]. split; [reflexivity|].
+    repeat match goal with Hn : negb ?b = false |- _ => apply negb_false_iff in Hn end.
+    split; [first [assumption|reflexivity]|]. split; first [assumption|reflexivity].
   - (* delegated credential *)
     split; [reflexivity|]. split; [reflexivity|]. split; [reflexivity|].
     eexists _, _, _, _. split; [reflexivity|]. split; [reflexivity|].
@@ -319,7 +321,7 @@ Lemma scheme_offered_parts O r :
      exists cm d, r_cert r = Some cm /\ cm_dc cm = [d] /\
        sch_in (dc_cv_alg d) (r_dc_offered r) = true /\ sch_in (dc_alg d) (r_offered r) = true) /\
   (forall s c, client13 O r = Ok s -> s_server_chain s = Some c -> s_dc s = false ->
-     exists sch sg, r_cv r = Some (Some sch, sg) /\ sch_in sch (r_offered r) = true).
+     exists sch sg, r_cv r = Some (Some sch, sg) /\ sch_in sch (r_offered r) = true /\ sch_in sch (r_valid r) = true).
 Proof.
   split; [|split; [|split; [|split; [|split]]]].
   - intros s c H Hc V.
@@ -341,8 +343,8 @@ Proof.
     exists cm, d. repeat split; assumption.
   - intros s c H Hc Hd.
     destruct (client13_recorded O r s c H Hc) as (_ & _ & _ & cm & sch0 & sg & ctx & _ & _ & _ & Hcv & _ & Hor).
-    destruct Hor as [(_ & _ & Hoff & _)|(d & _ & Hf & _)].
-    + exists sch0, sg. split; assumption.
+    destruct Hor as [(_ & _ & Hoff & Hval & _)|(d & _ & Hf & _)].
+    + exists sch0, sg. repeat split; assumption.
     + rewrite Hd in Hf. discriminate Hf.
 Qed.
 
